@@ -12,9 +12,8 @@
    datagrams makes the calling thread panic or ends the daemon thread.
    Proved here: the argument-validation layer (every string, every position of multi-byte
    characters, dots, backslashes, suffixes) and the encodability of every accepted name.
-   Refuted here, with witnesses that kill the real daemon thread (known findings):
-   names that become over-long when a conflict suffix is added, and names taken from the
-   wire whose labels end in a backslash.
+   Formerly refuted, now proved after the repairs c85b8fe / 35da75b: names stay encodable
+   under any number of conflict renames; names taken from the wire are encodable again.
    Not covered by a theorem (monitor chk_C15 on simulated-daemon runs only): panic-freedom of
    the whole daemon iteration on arbitrary packets beyond the decoder (C01's decode_total). *)
 From Coq Require Import List NArith Bool.
@@ -72,46 +71,64 @@ Theorem C15_accepted_is_encodable_register : forall ty nm host tyd sub full serv
   enc_ok full /\ enc_ok tyd /\ enc_ok server /\ (forall s, sub = Some s -> enc_ok s).
 Proof. exact register_accepted. Qed.
 
-(* rename_stays_encodable is FALSE.  Full statement that fails:
-     forall accepted registration, encodable (name_change fullname) = true
-   Witness: instance name of 60 bytes; the conflict handler's new name has a first label of
-   64 bytes, and writing it into a fresh packet hits write_utf8's assertion. *)
-Theorem C15_rename_stays_encodable_refuted :
-  exists ty nm host full renamed,
-    utf8_valid ty = true /\ utf8_valid nm = true /\ utf8_valid host = true
-    /\ api_register ty nm host = Ok tt
-    /\ full = escape_label nm ++ DOT :: ty
-    /\ name_change full = Ok renamed
-    /\ encodable renamed = false
-    /\ (forall pos, write_name [] pos renamed = Panic).
-Proof. exact rename_refuted. Qed.
+(* rename_stays_encodable (was refuted before c85b8fe): ANY number of conflict renames of a
+   name whose labels fit (valid UTF-8) never panics and yields a name whose labels are again
+   1..63 bytes under the encoder's split, so write_name cannot panic on it (any table, any
+   position).  split_first_label / label_with_suffix are modelled exactly (char-boundary
+   loop, odd-trailing-backslash rule, usize subtractions). *)
+Theorem C15_rename_stays_encodable : forall n s,
+  utf8_valid s = true -> wf_bytes s -> labels_fit s = true ->
+  exists r, iter_rename name_change n s = Ok r /\ labels_fit r = true /\ enc_ok r.
+Proof. exact rename_stays_encodable. Qed.
 
-Theorem C15_hostname_rename_stays_encodable_refuted :
-  exists host renamed,
-    utf8_valid host = true /\ api_resolve_hostname host = Ok tt
-    /\ api_register x_tcp [105] host = Ok tt
-    /\ hostname_change host = Ok renamed
-    /\ encodable renamed = false
-    /\ (forall pos, write_name [] pos renamed = Panic).
-Proof. exact hostname_rename_refuted. Qed.
+Theorem C15_hostname_rename_stays_encodable : forall n s,
+  utf8_valid s = true -> wf_bytes s -> labels_fit s = true ->
+  exists r, iter_rename hostname_change n s = Ok r /\ labels_fit r = true /\ enc_ok r.
+Proof. exact hostname_rename_stays_encodable. Qed.
 
-(* reencode_safe is FALSE.  Full statement that fails:
-     forall wire labels (each 1..63 bytes, UTF-8), encodable (present labels) = true
-   where `present` is the dotted text the decoder stores.  Witness: labels "a"x40 + "\" and
-   "b"x40 present as one escaped label of 81 bytes. *)
-Theorem C15_reencode_safe_refuted :
-  exists ls,
-    forallb wire_label_ok ls = true
-    /\ encodable (present ls) = false
-    /\ (forall pos, write_name [] pos (present ls) = Panic).
-Proof. exact reencode_refuted. Qed.
+(* one rename in detail: no panic on any text that may follow an ASCII character (valid UTF-8
+   in particular); the result is the original with its first label (up to the first unescaped
+   dot) replaced by a prefix of it plus a suffix of plain ASCII bytes, at most 63 bytes. *)
+Theorem C15_name_change_shape : forall s,
+  wfs s -> exists r, name_change s = Ok r /\ renamed_of s r.
+Proof. exact name_change_renamed. Qed.
 
-(* reencode_safe_partial: what is missing for the full statement is exactly the backslash.
-   Wire labels without a backslash (dots allowed) always re-split into labels of at most 63
-   bytes. *)
-Theorem C15_reencode_safe_partial : forall ls,
-  Forall (fun l => ~ In BSL l /\ blen l <= 63) ls -> encodable (present ls) = true.
-Proof. exact reencode_safe_without_backslash. Qed.
+Theorem C15_hostname_change_shape : forall s,
+  wfs s -> exists r, hostname_change s = Ok r /\ renamed_of s r.
+Proof. exact hostname_change_renamed. Qed.
+
+Theorem C15_renamed_first_label_bounded : forall s r,
+  renamed_of s r -> exists new rest, r = new ++ rest /\ (length new <= 63)%nat
+                     /\ (rest = [] \/ exists t, rest = DOT :: t).
+Proof. exact renamed_first_label_bounded. Qed.
+
+Theorem C15_label_with_suffix_total : forall base suffix,
+  (length suffix <= 63)%nat ->
+  exists kept, label_with_suffix base suffix = Ok (kept ++ suffix) /\ is_prefix kept base
+    /\ (length (kept ++ suffix) <= 63)%nat.
+Proof. exact label_with_suffix_spec. Qed.
+
+(* reencode_safe (was refuted before 35da75b).  read_name now ends with the fit test
+   (read_name_fit = that last step on the labels read; the reader itself is Model/Wire.v):
+   every name it returns - more generally every name that passes SafetyNames' fit predicate -
+   has only labels of 1..63 bytes under the encoder's split and write_name cannot panic. *)
+Theorem C15_fit_name_encodes : forall name,
+  wf_bytes name -> labels_fit name = true -> enc_ok name.
+Proof. exact fit_name_encodes. Qed.
+
+Theorem C15_reencode_safe : forall ls name,
+  Forall wf_bytes ls -> read_name_fit ls = Ok name -> name = present ls /\ enc_ok name.
+Proof. exact reencode_safe. Qed.
+
+(* the test is not over-strict: wire labels without a backslash (dots allowed) always pass;
+   the former witness (40 bytes + backslash, then 40 bytes) is rejected with Err, not Panic *)
+Theorem C15_read_name_fit_accepts : forall ls,
+  Forall (fun l => ~ In BSL l /\ blen l <= 63) ls -> read_name_fit ls = Ok (present ls).
+Proof. exact read_name_fit_accepts. Qed.
+
+Theorem C15_read_name_fit_rejects_merged :
+  read_name_fit [rep 97 40 ++ [BSL]; rep 98 40; [95;120]; [95;116;99;112]; [108;111;99;97;108]] = Err.
+Proof. exact read_name_fit_rejects_merged. Qed.
 
 (* the regenerated guards are the numbers of the property text *)
 Theorem C15_params_pinned :
@@ -131,6 +148,10 @@ Example C15_examples :
   /\ api_register ([195;169] ++ tcp_suffix) [105] h_local = Err
   /\ name_change [102;111;111;32;40;57;41;46;120;46] = Ok [102;111;111;32;40;49;48;41;46;120;46]
   /\ hostname_change [195;169;45;50;46;108;111;99;97;108;46] = Ok [195;169;45;51;46;108;111;99;97;108;46]
+  /\ name_change (repeat 97 63 ++ [46;120;46]) = Ok (repeat 97 59 ++ [32;40;50;41;46;120;46])
+  /\ name_change ([97;92;46;98] ++ [46;120;46]) = Ok ([97;92;46;98;32;40;50;41] ++ [46;120;46])
+  /\ hostname_change (repeat 104 63 ++ local_suffix) = Ok (repeat 104 61 ++ [45;50] ++ local_suffix)
+  /\ iter_rename name_change 3 (repeat 97 60 ++ [46;120;46]) = Ok (repeat 97 59 ++ [32;40;52;41;46;120;46])
   /\ chk_C15 (mkObs15 0 false true) = true /\ chk_C15 (mkObs15 0 true false) = false.
 Proof. repeat split; vm_compute; reflexivity. Qed.
 
@@ -140,8 +161,14 @@ Print Assumptions C15_service_label_slice_safe.
 Print Assumptions C15_accepted_is_encodable_browse.
 Print Assumptions C15_accepted_is_encodable_resolve.
 Print Assumptions C15_accepted_is_encodable_register.
-Print Assumptions C15_rename_stays_encodable_refuted.
-Print Assumptions C15_hostname_rename_stays_encodable_refuted.
-Print Assumptions C15_reencode_safe_refuted.
-Print Assumptions C15_reencode_safe_partial.
+Print Assumptions C15_rename_stays_encodable.
+Print Assumptions C15_hostname_rename_stays_encodable.
+Print Assumptions C15_name_change_shape.
+Print Assumptions C15_hostname_change_shape.
+Print Assumptions C15_renamed_first_label_bounded.
+Print Assumptions C15_label_with_suffix_total.
+Print Assumptions C15_fit_name_encodes.
+Print Assumptions C15_reencode_safe.
+Print Assumptions C15_read_name_fit_accepts.
+Print Assumptions C15_read_name_fit_rejects_merged.
 Print Assumptions C15_params_pinned.
